@@ -52,13 +52,11 @@ Fixpoint latin1_decode (fuel : nat) (s : bytes) : option bytes :=
 Section Decode.
   Variable e : env.
   Variable wildcard : bytes.
-  Variable excl : pathspec.
-  Variable ignore : nat.
-  (* strconv float parsing is external: 0 = ParseFloat(s, 64); 1 = ParseFloat(s, 32); 2 = float32(ParseFloat(s, 64)) *)
-  Variable parseF : nat -> bytes -> option N.
-
-  Notation enter_map := (enter_map wildcard excl ignore).
-  Notation record_missing := (record_missing wildcard excl ignore).
+  (* The exclusion spec [excl], leadingScopeToIgnore [ignore] and the float oracle [parseF] (strconv float parsing is external:
+     0 = ParseFloat(s, 64); 1 = ParseFloat(s, 32); 2 = float32(ParseFloat(s, 64))) are PARAMETERS of jprim / decJ, in the positions
+     they had as section variables, and section variables again from the ROR2 part on: the generated populateLocalDefaultValues
+     reads every default literal with restlicodec.NewJsonReader (codegen/types/record.go setDefaultValue), i.e. with NO excluded
+     fields and scopeToIgnore 0, whatever the reader being used - so decJ calls itself with [ps_empty] and [0] on the literals. *)
 
   (* ---- schema helpers ---- *)
   Fixpoint zero_value (fuel : nat) (t : ty) : value :=
@@ -103,7 +101,7 @@ Section Decode.
   (* =====================================================================================================
      JSON (tree level)
      ===================================================================================================== *)
-  Definition jprim (p : prim) (d : jdoc) : res value :=
+  Definition jprim (parseF : nat -> bytes -> option N) (p : prim) (d : jdoc) : res value :=
     match p, d with
     | PInt, JNum t => match parse_i32 t with Some z => Ok (VInt z) | None => Err EDeser end
     | PLong, JNum t => match parse_i64 t with Some z => Ok (VLong z) | None => Err EDeser end
@@ -118,14 +116,16 @@ Section Decode.
   Definition jstring (d : jdoc) : res bytes := match d with JStr s => Ok s | _ => Err EDeser end.
 
   (* top = this value is the root of the document (lexer.IsStart()) *)
-  Fixpoint decJ (fuel : nat) (top : bool) (t : ty) (d : jdoc) (tr : tracker) {struct fuel} : res (value * tracker) :=
+  Fixpoint decJ (excl : pathspec) (ignore : nat) (parseF : nat -> bytes -> option N)
+      (fuel : nat) (top : bool) (t : ty) (d : jdoc) (tr : tracker) {struct fuel} : res (value * tracker) :=
     match fuel with
     | 0 => Err EFuel
     | S f =>
-        (* the defaults of the own fields of a record: populateLocalDefaultValues re-parses the literal *)
+        (* the defaults of the own fields of a record: populateLocalDefaultValues re-parses the literal with NewJsonReader:
+           no excluded fields, scopeToIgnore 0 *)
         let lit_value (t' : ty) (lit : bytes) : option value :=
           match parse_json lit with
-          | Some jd => match decJ f true t' jd tracker0 with Ok (v, _) => Some v | _ => None end
+          | Some jd => match decJ ps_empty 0 parseF f true t' jd tracker0 with Ok (v, _) => Some v | _ => None end
           | None => None
           end in
         let fix fill_defaults (fs : list field) (vs : list (option value)) : list (option value) :=
@@ -161,7 +161,7 @@ Section Decode.
                       | Some j =>
                           match nth_error fs j with
                           | Some fd =>
-                              do r <- decJ f false (f_ty fd) jd tr;
+                              do r <- decJ excl ignore parseF f false (f_ty fd) jd tr;
                               let '(v, tr') := r in
                               Ok (true, VRec ivs (set_nth j (Some v) fvs), tr')
                           | None => Err EType
@@ -173,10 +173,10 @@ Section Decode.
               end
           end in
         match t with
-        | TPrim p => do v <- jprim p d; Ok (v, tr)
+        | TPrim p => do v <- jprim parseF p d; Ok (v, tr)
         | TEnum syms => do s <- jstring d; Ok (enum_value syms s, tr)
         | TFixed n =>
-            do v <- jprim PBytes d;
+            do v <- jprim parseF PBytes d;
             match v with VBytes b => if Nat.eqb (length b) n then Ok (VFixed b, tr) else Err EFixedSize | _ => Err EType end
         | TArray t' =>
             match d with
@@ -186,7 +186,7 @@ Section Decode.
                    match l with
                    | [] => Ok (VArr (rev acc), tr)
                    | x :: r =>
-                       do rr <- decJ f false t' x (enter_array i tr);
+                       do rr <- decJ excl ignore parseF f false t' x (enter_array i tr);
                        let '(v, tr') := rr in go r (S i) (v :: acc) (pop tr')
                    end) items 0 [] tr
             | _ => Err EDeser
@@ -201,8 +201,8 @@ Section Decode.
                    | (k, x) :: r =>
                        match x with
                        | JNull => go r acc tr
-                       | _ => do tr1 <- enter_map k tr;
-                              do rr <- decJ f false t' x tr1;
+                       | _ => do tr1 <- enter_map wildcard excl ignore k tr;
+                              do rr <- decJ excl ignore parseF f false t' x tr1;
                               let '(v, tr2) := rr in go r (map_put k v acc) (pop tr2)
                        end
                    end) es [] tr
@@ -219,14 +219,14 @@ Section Decode.
                            | (k, x) :: r =>
                                match x with
                                | JNull => go r rv rem tr
-                               | _ => do tr1 <- enter_map k tr;
+                               | _ => do tr1 <- enter_map wildcard excl ignore k tr;
                                       do u <- unmarshal_field (S (length e)) n k x rv tr1;
                                       let '(_, rv', tr2) := u in          (* not found: Skip() *)
                                       go r rv' (remove_bytes k rem) (pop tr2)
                                end
                            end) es (zero_value (S (S (length e))) t) (required_fields (S (length e)) n) tr;
                 let '(rv, rem, tr1) := r in
-                let tr2 := record_missing rem tr1 in
+                let tr2 := record_missing wildcard excl ignore rem tr1 in
                 (* only the record at the start of the input raises; populateLocalDefaultValues runs after a nil error *)
                 let raising := top && negb (match t_missing tr2 with [] => true | _ => false end) in
                 let rv' := if raising || negb (own_has_default fs) then rv
@@ -241,13 +241,13 @@ Section Decode.
                            | (k, x) :: r =>
                                match x with
                                | JNull => go r uv wasSet tr
-                               | _ => do tr1 <- enter_map k tr;
+                               | _ => do tr1 <- enter_map wildcard excl ignore k tr;
                                       if wasSet then Err EUnion
                                       else match index_of k (map fst ms) 0 with
                                            | Some j =>
                                                match nth_error ms j with
                                                | Some (_, mt) =>
-                                                   do rr <- decJ f false mt x tr1;
+                                                   do rr <- decJ excl ignore parseF f false mt x tr1;
                                                    let '(v, tr2) := rr in go r (set_nth j (Some v) uv) true (pop tr2)
                                                | None => Err EType
                                                end
@@ -261,6 +261,14 @@ Section Decode.
             end
         end
     end.
+
+  (* ---- from here on [excl], [ignore], [parseF] are fixed ---- *)
+  Variable excl : pathspec.
+  Variable ignore : nat.
+  Variable parseF : nat -> bytes -> option N.
+
+  Notation enter_map := (enter_map wildcard excl ignore).
+  Notation record_missing := (record_missing wildcard excl ignore).
 
   (* =====================================================================================================
      ROR2 (cursor level): ror2_reader.go.  The cursor only moves forward, so the state is the unread suffix of the input
@@ -387,7 +395,7 @@ Section Decode.
     | S f =>
         let lit_value (t' : ty) (lit : bytes) : option value :=
           match parse_json lit with
-          | Some jd => match decJ f true t' jd tracker0 with Ok (v, _) => Some v | _ => None end
+          | Some jd => match decJ ps_empty 0 parseF f true t' jd tracker0 with Ok (v, _) => Some v | _ => None end
           | None => None
           end in
         let fix fill_defaults (fs : list field) (vs : list (option value)) : list (option value) :=
@@ -581,7 +589,7 @@ Section Decode.
     | _ => if bytes_eqb data lit_null then DErr EDeser
            else match parse_json data with
                 | None => DErr EDeser
-                | Some jd => finish (is_record t) (decJ fuel true t jd tracker0)
+                | Some jd => finish (is_record t) (decJ excl ignore parseF fuel true t jd tracker0)
                 end
     end.
 
